@@ -125,11 +125,55 @@ theorem tree_shape_schedule_independent_allDone {p : Prog} (σ₁ σ₂ : List N
     (h₁ : AllDone (run p σ₁)) (h₂ : AllDone (run p σ₂)) : (run p σ₁).log.Perm (run p σ₂).log :=
   (log_perm_seq p σ₁ h₁).trans (log_perm_seq p σ₂ h₂).symm
 
+/-- **Every unit logs in its own program order**, under every schedule: the keys unit `u` has logged so far are
+a prefix of the keys its own statements emit in program order (`ownKeys`), all of them once it has finished.
+So "the same tree up to the order of siblings that ran concurrently" does not allow reordering the
+messages / child actions of ONE unit. -/
+theorem unit_order (p : Prog) (σ : List Nat) (u : Nat) :
+    unitKeys (run p σ).log u <+: ownKeys [] (p.code u) ∧
+    (((run p σ).units u).started = true → ((run p σ).units u).code = [] →
+      unitKeys (run p σ).log u = ownKeys [] (p.code u)) := by
+  have h := oinv_run p σ
+  constructor
+  · by_cases hs : ((run p σ).units u).started = true
+    · exact ⟨_, h.started u hs⟩
+    · have : ((run p σ).units u).started = false := by simpa using hs
+      rw [h.idle u this]; exact List.nil_prefix
+  · intro hs hc
+    have := h.started u hs
+    rw [hc] at this
+    simpa [ownKeys] using this
+
+/-- … and the records themselves (with their parents), in that order, are the same under any two schedules
+that finish the unit. -/
+theorem unit_order_schedule_independent {p : Prog} (hU : OccUnique p) (σ₁ σ₂ : List Nat) (u : Nat)
+    (s₁ : ((run p σ₁).units u).started = true) (d₁ : ((run p σ₁).units u).code = [])
+    (s₂ : ((run p σ₂).units u).started = true) (d₂ : ((run p σ₂).units u).code = []) :
+    unitLog (run p σ₁).log u = unitLog (run p σ₂).log u := by
+  apply eq_of_map_key_eq hU
+  · have a := (unit_order p σ₁ u).2 s₁ d₁
+    have b := (unit_order p σ₂ u).2 s₂ d₂
+    unfold unitKeys at a b
+    unfold unitLog
+    rw [a, b]
+  · intro r hr
+    have : r ∈ (run p σ₁).log := by
+      have := (List.mem_filter.mp hr).1
+      exact List.mem_reverse.mp this
+    exact log_subset_seq p σ₁ r this
+  · intro r hr
+    have : r ∈ (run p σ₂).log := by
+      have := (List.mem_filter.mp hr).1
+      exact List.mem_reverse.mp this
+    exact log_subset_seq p σ₂ r this
+
 /-! ## Generated-skeleton obligation (E7): the current action lives in a `ContextVar` that is only
-read with `.get`, written with `.set` and restored with `.reset`, nowhere else in the package. -/
+read with `.get`, written with `.set` and restored with `.reset`, nowhere else in the package, and every
+`.reset(x)` restores a token that a `.set` in the same function / class stored in `x`. -/
 example : Eliot.Generated.actionContext.isContextVar = true ∧ Eliot.Generated.actionContext.otherUses = 0 ∧
     Eliot.Generated.actionContext.foreignUses = 0 ∧ Eliot.Generated.actionContext.currentActionIsGet = true ∧
-    Eliot.Generated.actionContext.sets = Eliot.Generated.actionContext.resets ∧ 0 < Eliot.Generated.actionContext.sets := by
+    Eliot.Generated.actionContext.sets = Eliot.Generated.actionContext.resets ∧ 0 < Eliot.Generated.actionContext.sets ∧
+    Eliot.Generated.actionContext.pairedResets = Eliot.Generated.actionContext.resets := by
   decide
 
 /-! ## Non-vacuity -/
@@ -197,5 +241,13 @@ example : Joined exSegment := by unfold Joined; decide
 example : (run exSegment [0, 0, 0, 0, 0, 0, 1, 0, 0, 0, 0]).log.reverse.filterMap
       (fun r => if r.kind = .msg then some (r.unit, r.occ, r.parent) else none) =
     [(0, 2, some 1), (1, 11, some 5)] := by decide
+
+/-- unit 1 of `ex` logs msg 10, start 11, msg 12, end 11 — in this order under σa and σb -/
+example : unitKeys (run ex σa).log 1 = [(10, .msg), (11, .start), (12, .msg), (11, .end_)] ∧
+    unitKeys (run ex σb).log 1 = ownKeys [] (ex.code 1) := by decide
+
+/-- entering an Action that is inside a `with` block of another unit is out of domain (disabled) -/
+example : (run ⟨[[.create 5, .spawnTask 1, .withOf 5, .join 1, .exit], [.withOf 5, .exit]]⟩ [0, 0, 0, 1]).log.length = 1 := by
+  decide
 
 end Ctx.C05
